@@ -115,6 +115,7 @@ class Frontend:
     def _native(s, src, out, inst, flags, defs):
         if os.path.exists(out):
             return out, ''
+        flags = tuple(flags)
         if flags and flags[0] == 'CLANG':
             # clang build against the scratch copy (UBSan of the compiler whose IR the engine executes)
             cmd = (['clang++-14'] + COMMON + ['-w'] + list(flags[1:]) + s.includes()
